@@ -828,6 +828,10 @@ func main() {
 	os.MkdirAll(*out, 0o755)
 	config.SetDefaultProxy("")
 	r := cq.Rand()
+	if *prop == "C18" {
+		pvMain(os.Args[1], out, n, casef, r)
+		return
+	}
 	if *prop == "C17" {
 		lcMain(os.Args[1], out, n, casef, r)
 		return
